@@ -17,5 +17,9 @@ def gen (_ : Nat) : List String :=
   -- atomicity of an announcement on the instrumented template system of cmd/goflow2: at every step of a worker that
   -- re-announces template 256 (as the other kind of template, or as the same), another worker's data set of 256 is
   -- never "template not found"
-  (["o2d", "d2o", "same"].flatMap fun m => ["race tplatomic " ++ m ++ " -", "expect res ok lost=[]"])
+  (["o2d", "d2o", "same"].flatMap fun m => ["race tplatomic " ++ m ++ " -", "expect res ok lost=[]"]) ++
+  -- first contacts of different exporters at the same moment (template systems per address and port, sampling systems per address)
+  (([2, 3].flatMap fun n => (plans n).map fun p => (n, p)).flatMap fun (n, p) =>
+    ["tplx", "ratex"].flatMap fun kind =>
+      ["race " ++ kind ++ " " ++ toString n ++ " " ++ ",".intercalate (p.map Ev.str), "expect res ok lost=[]"])
 end Goflow.Gen.C16
